@@ -180,6 +180,24 @@ def check(P: Project, R: Report) -> None:
                 v = through_local(v.func.value)
             ok_shape = isinstance(v, ast.Call) and lib_call_name(v).endswith(f".{fname}") and len(v.args) >= 1 and is_input(v.args[0])
             lib = lib_call_name(v).rsplit(".", 1)[0] if isinstance(v, ast.Call) else "?"
+            # `json.JSONEncoder(**kwargs).encode(obj)` is what `json.dumps(obj, **kwargs)` does; the encoder may be a local, and
+            # may come out of a module-level table of encoders (whose keys are R5's subject)
+            if fname == "dumps" and isinstance(v, ast.Call) and isinstance(v.func, ast.Attribute) and v.func.attr == "encode" and len(v.args) == 1 and not v.keywords and is_input(v.args[0]):
+                kwn = f.node.args.kwarg.arg if f.node.args.kwarg is not None else "kwargs"
+                srcs = [x for x in (lv.get(v.func.value.id, []) if isinstance(v.func.value, ast.Name) else [v.func.value])]
+
+                def encoder_source(e_) -> bool:
+                    if isinstance(e_, ast.Call) and lib_call_name(e_).endswith(".JSONEncoder") and "orjson" not in lib_call_name(e_) and not e_.args and [ast.unparse(k_.value) for k_ in e_.keywords if k_.arg is None] == [kwn] and not [k_ for k_ in e_.keywords if k_.arg]:
+                        return True
+                    tbl = None
+                    if isinstance(e_, ast.Call) and isinstance(e_.func, ast.Attribute) and e_.func.attr == "get" and isinstance(e_.func.value, ast.Name):
+                        tbl = e_.func.value.id
+                    if isinstance(e_, ast.Subscript) and isinstance(e_.value, ast.Name):
+                        tbl = e_.value.id
+                    return tbl is not None and P.module_assign(mod, tbl) is not None
+                if srcs and all(x is not None and encoder_source(x) for x in srcs):
+                    ok_shape = True
+                    lib = next((lib_call_name(x).rsplit(".", 1)[0] for x in srcs if isinstance(x, ast.Call) and lib_call_name(x).endswith(".JSONEncoder")), "json")
             kind, target = P.resolve_name(A.MOD_FASTJSON, lib)
             backend = target if kind in ("module", "external") else lib
             if "orjson" in str(backend) or "orjson" in lib:
@@ -292,3 +310,56 @@ def check(P: Project, R: Report) -> None:
                 bad = [k.arg for k in c.keywords if k.arg in ("indent", "option")]
                 R.ob("R3", f"{f.qual}: `{call_name(c)}` passes no indent", not bad, f"{f.module.rel}:{c.lineno}", f"keywords {bad}", sample=f"R3 {f.qual}: {ast.unparse(c)[:60]}")
     R.need(n >= 4, f"only {n} serialiser calls found in the stdio frame writers (5 confirmed by hand)")
+
+    # ------------------------------------------------------------------ R5: nothing one call's options leave behind decides a later call's encoding
+    R.rule("R5", "an encoding depends on its own call's options only: whatever the codec keeps at module level between calls and stores from a call's options (a table of prepared encoders) is stored under a key that covers the option values, not just their names — otherwise a pretty-printing call leaves an encoder that a later compact call picks up, and one message becomes many lines")
+    tables = {}
+    for st_ in mod.tree.body:
+        tg_ = st_.targets[0] if isinstance(st_, ast.Assign) and len(st_.targets) == 1 else (st_.target if isinstance(st_, ast.AnnAssign) else None)
+        val_ = getattr(st_, "value", None)
+        if isinstance(tg_, ast.Name) and (isinstance(val_, (ast.Dict, ast.List, ast.Set)) or (isinstance(val_, ast.Call) and call_name(val_) in ("dict", "list", "set", "OrderedDict", "collections.OrderedDict"))):
+            tables[tg_.id] = st_
+    n_stores = 0
+    for g in P.funcs_in(A.MOD_FASTJSON):
+        kwn = g.node.args.kwarg.arg if g.node.args.kwarg is not None else None
+        opt_names = {kwn} if kwn else set()
+        opt_names |= {p_ for p_ in g.positional_params() if p_ in ("kwargs", "options", "opts")}
+        glv = local_values(g.node)
+
+        def depends(e_, on, depth=0) -> bool:
+            for x_ in ast.walk(e_):
+                if isinstance(x_, ast.Name):
+                    if x_.id in on:
+                        return True
+                    if depth < 3:
+                        for v_ in glv.get(x_.id, []) or []:
+                            if v_ is not None and depends(v_, on, depth + 1):
+                                return True
+            return False
+
+        def covers_values(e_, depth=0) -> bool:
+            """the key is built from the options' items (names and values), or from a rendering of the whole mapping"""
+            for x_ in ast.walk(e_):
+                if isinstance(x_, ast.Call) and isinstance(x_.func, ast.Attribute) and x_.func.attr in ("items", "values") and isinstance(x_.func.value, ast.Name) and x_.func.value.id in opt_names:
+                    return True
+                if isinstance(x_, ast.Call) and call_name(x_) in ("repr", "str") and x_.args and isinstance(x_.args[0], ast.Name) and x_.args[0].id in opt_names:
+                    return True
+                if isinstance(x_, ast.Name) and depth < 3:
+                    for v_ in glv.get(x_.id, []) or []:
+                        if v_ is not None and covers_values(v_, depth + 1):
+                            return True
+            return False
+
+        for n_ in walk_local(g.node):
+            key_ = val_ = tbl_ = None
+            if isinstance(n_, ast.Assign) and len(n_.targets) == 1 and isinstance(n_.targets[0], ast.Subscript) and isinstance(n_.targets[0].value, ast.Name) and n_.targets[0].value.id in tables:
+                tbl_, key_, val_ = n_.targets[0].value.id, n_.targets[0].slice, n_.value
+            elif isinstance(n_, ast.Call) and isinstance(n_.func, ast.Attribute) and n_.func.attr == "setdefault" and isinstance(n_.func.value, ast.Name) and n_.func.value.id in tables and len(n_.args) == 2:
+                tbl_, key_, val_ = n_.func.value.id, n_.args[0], n_.args[1]
+            if tbl_ is None or not opt_names or not depends(val_, opt_names):
+                continue
+            n_stores += 1
+            R.ob("R5", f"{g.qual}: what is kept in `{tbl_}` from a call's options is found again only by a call with the same option values", covers_values(key_), f"{mod.rel}:{n_.lineno}",
+                 f"`{ast.unparse(n_)[:70]}` stores something built from the options under `{ast.unparse(key_)[:40]}` (defined by `{'; '.join(ast.unparse(v_)[:50] for v_ in (glv.get(key_.id, []) if isinstance(key_, ast.Name) else []) if v_ is not None) or ast.unparse(key_)[:50]}`), which does not include the option values: after one call with indent=2 every later call that passes the same keyword names — indent=None, the compact form — is encoded with that indenting encoder",
+                 sample=f"R5 {g.qual}: {tbl_}[…] keyed by option items")
+    R.ob("R5", "the codec keeps nothing between calls that is keyed by less than the options it was built from", True, mod.rel, f"{len(tables)} module-level container(s), {n_stores} option-dependent store(s)", sample=f"R5 module-level containers: {sorted(tables) or 'none'}")
